@@ -125,6 +125,8 @@ pub enum Ev {
     Complete(usize),
     /// connection c's service future panics (caught by the task), then that worker runs
     Fail(usize),
+    /// the client of TCP connection c resets it (while it waits in a queue of the server)
+    ClientReset(usize),
     Pause,
     Resume,
     Stop(bool),
@@ -172,6 +174,7 @@ pub enum Rec {
     StopProcessed,
     /// waker queue content at the start of an accept turn
     ConnPanicked { conn: usize },
+    ClientReset { conn: usize },
     /// a pause / resume / stop call was made (its command is in the server task's channel now)
     CmdSent(Ev),
     AcceptQueueBefore(Vec<String>),
@@ -195,6 +198,8 @@ struct Client {
     sock: ClientSock,
     port: u16,
     eof: bool,
+    /// the client has reset its connection (closed it with SO_LINGER 0)
+    reset: bool,
 }
 
 enum ClientSock {
@@ -252,6 +257,9 @@ pub struct World {
     pub cmds: RefCell<Vec<CmdFut>>,
     // preemption
     points: RefCell<Vec<Pt>>,
+    /// server-side stream fd -> connection, recorded when the accept loop hands it over (a stream
+    /// whose peer has reset it cannot be identified any more by asking the kernel)
+    pub fd_conn: RefCell<BTreeMap<RawFd, usize>>,
     /// messages in the server task's channel that it has not taken yet, in order (commands and
     /// fault notices share one channel, so their relative order decides what happens next)
     pub server_inbox: RefCell<Vec<String>>,
@@ -457,6 +465,9 @@ impl Observer for Obs {
 
     fn dispatch(&self, worker: usize, token: usize, fd: RawFd) {
         let conn = self.0.identify(fd);
+        if let Some(c) = conn {
+            self.0.fd_conn.borrow_mut().insert(fd, c);
+        }
         self.0.rec(Rec::Dispatch { conn, worker, token });
     }
 
@@ -601,6 +612,12 @@ impl World {
     }
 
     fn identify(&self, fd: RawFd) -> Option<usize> {
+        // a stream that the client has reset: only the hand-over record knows whose it is
+        if let Some(c) = self.fd_conn.borrow().get(&fd).copied() {
+            if self.clients.borrow().get(c).map_or(false, |cl| cl.reset) {
+                return Some(c);
+            }
+        }
         if let Some(port) = peer_port(fd) {
             return self.clients.borrow().iter().position(|c| c.port == port && port != 0);
         }
@@ -694,6 +711,14 @@ impl World {
 
     pub fn client_eof(&self, c: usize) -> bool {
         self.clients.borrow()[c].eof
+    }
+
+    pub fn client_reset(&self, c: usize) -> bool {
+        self.clients.borrow()[c].reset
+    }
+
+    pub fn client_is_tcp(&self, c: usize) -> bool {
+        matches!(self.clients.borrow()[c].sock, ClientSock::Tcp(_))
     }
 
     /// Probes every client socket for EOF (server side closed); with `wait_ms` > 0 waits that
@@ -1123,6 +1148,7 @@ impl Sys {
             torn_down: RefCell::new(BTreeSet::new()),
             cmds: RefCell::new(vec![]),
             points: RefCell::new(vec![]),
+            fd_conn: RefCell::new(BTreeMap::new()),
             server_inbox: RefCell::new(vec![]),
             in_accept_step: Cell::new(false),
             unrepresentable_join: Cell::new(false),
@@ -1215,6 +1241,26 @@ impl Sys {
             Ev::Connect(l) => self.connect(l),
             Ev::Complete(c) => w.complete(c),
             Ev::Fail(c) => w.finish(c, true),
+            Ev::ClientReset(c) => {
+                let mut cl = w.clients.borrow_mut();
+                if let Some(client) = cl.get_mut(c) {
+                    // closing with SO_LINGER 0 (set at connect) sends RST; the descriptor number is
+                    // kept valid by putting /dev/null in its place
+                    let fd = match &client.sock {
+                        ClientSock::Tcp(s) => s.as_raw_fd(),
+                        ClientSock::Uds(s) => s.as_raw_fd(),
+                    };
+                    let null = unsafe { libc::open(b"/dev/null\0".as_ptr() as *const libc::c_char, libc::O_RDONLY) };
+                    unsafe {
+                        libc::dup2(null, fd);
+                        libc::close(null);
+                    }
+                    client.reset = true;
+                    client.eof = true;
+                }
+                drop(cl);
+                w.rec(Rec::ClientReset { conn: c });
+            }
             Ev::Pause | Ev::Resume | Ev::Stop(_) => {
                 let h = w.handle.borrow().clone().unwrap();
                 let fut: Pin<Box<dyn Future<Output = ()>>> = match ev {
@@ -1321,7 +1367,7 @@ impl Sys {
                     ClientSock::Tcp(s) => s.write_all(&idb),
                     ClientSock::Uds(s) => s.write_all(&idb),
                 };
-                w.clients.borrow_mut().push(Client { listener: l, sock, port, eof: false });
+                w.clients.borrow_mut().push(Client { listener: l, sock, port, eof: false, reset: false });
                 w.rec(Rec::Connected { conn: id, listener: l });
                 // the connection is in the listener's queue when connect returns (loopback / UDS);
                 // make sure the kernel shows it before the next event is chosen
